@@ -473,6 +473,15 @@ class _Sym:
                 cont += c
                 rest = _diff(rest, live)
             return outs, fall + ([(rest, env)] if rest else []), brk, cont
+        if isinstance(st, ast.Try) and not st.finalbody and st.handlers and all(
+                h.body and isinstance(h.body[-1], ast.Raise) and not any(
+                    isinstance(n, (ast.Return, ast.Break, ast.Continue)) for b in h.body for n in ast.walk(b))
+                for h in st.handlers):
+            # every handler re-raises (whatever the class): an exception in the body still ends in an exception, so
+            # over {np.dtype(..), raises} the statement is its body followed by its else part
+            o1, f1, b1, c1 = self.run(st.body, [(S, env)])
+            o2, f2, b2, c2 = self.run(st.orelse, f1) if st.orelse else ([], f1, [], [])
+            return o1 + o2, f2, b1 + b2, c1 + c2
         fail(st, "statement the translator does not follow")
 
     def pattern(self, st, p, subj, env):
